@@ -146,6 +146,14 @@ Proof.
   destruct (i1 ++ i2); [reflexivity|]. rewrite new_jump_s. reflexivity.
 Qed.
 
+Lemma inl_reapply ix a cx s s1 p1 i1 :
+  inl a (Compile.plain (cx_containing cx)) s = Ok (s1, p1, i1) ->
+  inl (Compile.T ix D_Reapply None (Some a)) cx s =
+  Ok (emit (emit s1 (I_UpdateValue, ONone) (Some ix)) (I_JumpTo, ONum (cx_containing cx)) (Some ix), p1, i1).
+Proof.
+  intros H. cbn [Compile.inl kind_of]. unfold seq2, ret. rewrite H. cbn [bind]. cbv beta iota zeta. rewrite !app_nil_r. reflexivity.
+Qed.
+
 Lemma inl_nested ix rt cx s :
   inl (Compile.T ix D_NestedExpression None (Some rt)) cx s =
   Ok (sx s [(I_Put, OExpr (jl0 s))] [Some ix] [0], [mkP rt (jl0 s) (jl0 s) default_end], []).
@@ -184,6 +192,8 @@ Proof.
     + constructor; [destruct neg; cbn; discriminate|]. constructor; [cbn; discriminate|constructor].
   - destruct ic; cbn [of_frag to_frag c_inl f_inl]; (apply Forall_app; split; [apply IHe1; assumption|apply IHe2; assumption]).
   - cbn [of_frag to_frag c_inl f_inl]. constructor; [cbn; discriminate|constructor].
+  - cbn [of_frag to_frag c_inl f_inl]. apply Forall_app. split; [apply IHe; assumption|].
+    constructor; [cbn; discriminate|]. constructor; [cbn; discriminate|constructor].
 Qed.
 
 Section Sim.
@@ -386,6 +396,25 @@ Proof.
   eapply bodies_weaken; [|exact B1]. cbn [Ast.size]. lia.
 Qed.
 
+(* ---- re-apply ---- *)
+Lemma comp_reapply cont lk x pc j ob jb :
+  comp cont lk (EReapply x) pc j ob jb =
+  let f := comp cont None x pc j ob jb in
+  mkFrag (f_inl f ++ [ins I_UpdateValue; insn I_JumpTo cont]) (f_ool f) (f_ji f) (f_jo f).
+Proof. reflexivity. Qed.
+
+Lemma step_reapply x i k a : inl_spec x a -> inl_spec (EReapply x) (NPre i (hdef (EReapply x)) k a).
+Proof.
+  intros Hx rj lk cond s ob jb _.
+  destruct (Hx rj None false s ob jb (fun _ => eq_refl)) as (c1 & m1 & j1 & p1 & I1 & C1 & L1 & B1).
+  exists (c1 ++ [(I_UpdateValue, ONone); (I_JumpTo, ONum c)]), (m1 ++ [Some i; Some i]), j1, p1.
+  rewrite comp_reapply. cbn [f_inl f_ool f_ji f_jo img].
+  split; [|split; [apply conv_app; [exact C1|reflexivity]|split; [exact L1|]]].
+  - change (hdef (EReapply x)) with D_Reapply.
+    rewrite (inl_reapply rj i _ (mkCx c (option_map kdef lk) cond) s _ _ _ I1), !emit_sx, <- !app_assoc. reflexivity.
+  - eapply bodies_weaken; [|exact B1]. cbn [Ast.size]. lia.
+Qed.
+
 (* ---- binary operators ---- *)
 Lemma step_bin o l r i k tl tr : inl_spec l tl -> inl_spec r tr ->
   inl_spec (EBin o l r) (NBin i (hdef (EBin o l r)) k tl tr).
@@ -432,6 +461,7 @@ Proof.
   - destruct t; try contradiction. intros [-> _]. reflexivity.
   - destruct t; try contradiction. intros [-> _]. reflexivity.
   - destruct t as [| | | |b ? ? ?]; try contradiction. destruct b; try contradiction. intros _. reflexivity.
+  - destruct t; try contradiction. intros [-> _]. reflexivity.
 Qed.
 
 Lemma root_def_list kk e : match e with EList _ _ _ => False | _ => True end ->
